@@ -129,7 +129,7 @@ UNARY = {
     "is_inf": lambda x: UNSPEC if x is None else math.isinf(x),
     "is_nan": lambda x: UNSPEC if x is None else math.isnan(x),
 }
-UNARY_WITH_INF = {"is_null", "is_bad", "is_inf", "is_nan"}
+UNARY_WITH_INF = {"is_null", "is_bad", "is_inf", "is_nan", "coalesce_0"}  # an infinity is a value, not a missing value
 
 BINARY_OPS = {
     "+": strict(lambda a, b: a + b),
@@ -202,8 +202,10 @@ def scalar_cases():
         cases.append((name, ("coalesce" if name == "coalesce_0" else name), M(name, C("a")), t, lambda r, ref=ref: ref(r[0])))
     cases.append(("neg", "-", U("-", C("a")), tu, lambda r: None if r[0] is None else -r[0]))
     cases.append(("around2", "around", M("around", C("a"), V(2)), tu, strict_row(lambda a: round(a, 2))))
-    cases.append(("coalesce_lit", "coalesce", M("coalesce", C("a"), V(2)), tu, lambda r: 2 if r[0] is None else r[0]))
-    cases.append(("coalesce_op_lit", "coalesce", ["raw", "a %?% 2"], tu, lambda r: 2 if r[0] is None else r[0]))
+    cases.append(("coalesce_lit", "coalesce", M("coalesce", C("a"), V(2)), tu_inf, lambda r: 2 if r[0] is None else r[0]))
+    cases.append(("coalesce_op_lit", "coalesce", ["raw", "a %?% 2"], tu_inf, lambda r: 2 if r[0] is None else r[0]))
+    tb_inf = table(["a", "b"], {"a": "float", "b": "float"}, [(a, b) for a in (None, 1.0, INF, -INF) for b in (None, 7.0, INF)])
+    cases.append(("coalesce_inf", "coalesce", M("coalesce", C("a"), C("b")), tb_inf, lambda r: r[0] if r[0] is not None else r[1]))
     tb = table(["a", "b"], {"a": "float", "b": "float"}, list(itertools.product(NUM, NUM)))
     for op, ref in BINARY_OPS.items():
         cases.append(("op" + op, op, ["raw", f"a {op} b"], tb, lambda r, ref=ref: ref(r[0], r[1])))
